@@ -1238,9 +1238,44 @@ func (b *broker) subEventHistory(msg *wamp.Invocation) wamp.Message {
 			if storeItem, ok := b.eventHistoryStore[subscription]; ok {
 				isLimitReached = storeItem.atLimit()
 
-				var untilPubReached bool
+				// The publication bounds select a contiguous range of the
+				// stored entries, by position. They are resolved first, so
+				// that they do not depend on which entries the time and
+				// topic filters let through.
+				n := storeItem.entries.Len()
+				indexOf := func(pubID wamp.ID, from int) int {
+					for i := from; i < n; i++ {
+						if storeItem.entries.At(i).event.Publication == pubID {
+							return i
+						}
+					}
+					return -1
+				}
+				first, last := 0, n // entries [first, last)
+				if fromPub != 0 {
+					if first = indexOf(fromPub, 0); first < 0 {
+						first = n
+					}
+				}
+				if afterPub != 0 {
+					if i := indexOf(afterPub, first); i < 0 {
+						first = n
+					} else {
+						first = i + 1
+					}
+				}
+				if beforePub != 0 {
+					if i := indexOf(beforePub, first); i >= 0 {
+						last = i
+					}
+				}
+				if untilPub != 0 {
+					if i := indexOf(untilPub, first); i >= 0 && i+1 < last {
+						last = i + 1
+					}
+				}
 
-				for i := 0; i < storeItem.entries.Len(); i++ {
+				for i := first; i < last; i++ {
 					entry := storeItem.entries.At(i)
 					if !fromDate.IsZero() && entry.event.timestamp.Before(fromDate) {
 						continue
@@ -1254,36 +1289,10 @@ func (b *broker) subEventHistory(msg *wamp.Invocation) wamp.Message {
 					if !untilDate.IsZero() && entry.event.timestamp.After(untilDate) {
 						continue
 					}
-					if fromPub != 0 {
-						if entry.event.Publication != fromPub {
-							continue
-						}
-						fromPub = 0
-					}
-					if afterPub != 0 {
-						if entry.event.Publication == afterPub {
-							afterPub = 0
-						}
-						continue
-					}
-					if beforePub > 0 && entry.event.Publication == beforePub {
-						break
-					}
-					if untilPub > 0 {
-						// We need to include specified event, but also we need
-						// to check it against remaining filters, so we rise up
-						// untilPubReached flag and break the cycle on next
-						// turn
-						if untilPubReached {
-							break
-						}
-						if entry.event.Publication == untilPub {
-							untilPubReached = true
-						}
-					}
-
-					eventTopic, ok := entry.event.Details["topic"]
-					if len(topicUri) > 0 && (!ok || eventTopic != topicUri) {
+					// Compare with the topic that was published to. The stored
+					// event details only carry the topic for pattern
+					// subscriptions.
+					if len(topicUri) > 0 && entry.publication.Topic != topicUri {
 						continue
 					}
 
@@ -1292,15 +1301,17 @@ func (b *broker) subEventHistory(msg *wamp.Invocation) wamp.Message {
 			}
 		}
 
+		// The limit selects the most recent events, whatever the order they
+		// are returned in.
+		if limit > 0 {
+			start := max(len(filteredEvents)-limit, 0)
+			filteredEvents = filteredEvents[start:]
+		}
+
 		if reverse {
 			for i, j := 0, len(filteredEvents)-1; i < j; i, j = i+1, j-1 {
 				filteredEvents[i], filteredEvents[j] = filteredEvents[j], filteredEvents[i]
 			}
-		}
-
-		if limit > 0 {
-			start := max(len(filteredEvents)-limit, 0)
-			filteredEvents = filteredEvents[start:]
 		}
 
 		events, _ = wamp.AsList(filteredEvents)
